@@ -1,17 +1,404 @@
 import Yuiv.Proofs.C16
+import Yuiv.Proofs.C16Ord
+import Yuiv.Proofs.C16MDeg
+import Yuiv.Proofs.C16Rings
 /-
-Property theorems for C16.  `R` is an arbitrary commutative ring with decidable equality (ℤ, ℚ, F_p, ℤ[i] …),
-`X` an arbitrary generator type with decidable equality.
+Property theorems for C16 — "polynomial and linear-combination types form the free algebra they denote".
+
+Conventions.  `R` is an arbitrary commutative ring with decidable equality (ℤ, ℚ, F_p, ℤ[i] …; `Yuiv.Proofs.C16Rings`
+shows that the driver's `F3` and `GInt` are such rings), `X` an arbitrary generator type with decidable
+equality, `M` a monomial type forming a commutative monoid (`Var`, `Var2`, `Var3`, and the well-formed `MultiVar`s
+`WMVar`; instances in `Yuiv.Proofs.C16Ord/C16MDeg`), `I` an exponent type that is a linearly ordered cancellative
+commutative monoid (`ℕ` = `usize`, `ℤ` = `isize`).
+
+A value of `Lc<X,R>` is modelled by the list of its hash-map entries in *some* iteration order.
+`WF l` = keys pairwise distinct ∧ no zero coefficient.  `coeff l x` is the model of `Lc::coeff`.
+Statements "up to `List.Perm`" say that results do not depend on the iteration order of the hash map; the
+harness compares sorted term lists, which `perm_of_same_coeff` justifies.
 -/
+set_option linter.unusedSectionVars false
+set_option linter.unusedVariables false
+
 namespace Yuiv.C16.Props
 open Yuiv.C16
 
-section LcP
-variable {X R A : Type} [DecidableEq X] [DecidableEq R] [CommRing R] [AddCommMonoid A]
+/-! ## 1. the invariant is established by constructors and preserved by every mutating operation -/
+section Invariant
+variable {X Y R S : Type} [DecidableEq X] [DecidableEq Y] [DecidableEq R] [CommRing R]
+  [DecidableEq S] [CommRing S]
 
-/-- `from_iter` sums the coefficients of repeated generators: every linear functional sees the plain sum. -/
-theorem fromIter_lsum {g : X → R → A} (hg : Additive g) (it : List (X × R)) :
-    lsum g (fromIter it) = lsum g it := lsum_fromIter hg it
+/-- `from_iter` (hence `From<(X,R)>`, `From<X>`, `from_const`, `one`, `variable`, `zero`) yields distinct keys and
+no zero coefficient, whatever the input (repeated generators, zero coefficients, cancelling terms). -/
+theorem fromIter_wf (it : List (X × R)) : WF (fromIter it) := wf_fromIter it
 
-end LcP
+/-- `+=` (all `+` forms) preserves the invariant; only distinctness of the keys of `self` is needed. -/
+theorem addAssign_wf {a : List (X × R)} (ha : WF a) (b : List (X × R)) : WF (addAssign a b) :=
+  wf_addAssign ha.1 b
+
+/-- `-=` preserves the invariant. -/
+theorem subAssign_wf {a : List (X × R)} (ha : WF a) (b : List (X × R)) : WF (subAssign a b) :=
+  wf_subAssign ha.1 b
+
+/-- `*= r` preserves the invariant (zero divisors and `r = 0` included: products that vanish are removed). -/
+theorem smul_wf {a : List (X × R)} (ha : WF a) (r : R) : WF (smul a r) := wf_smul ha r
+
+/-- unary minus -/
+theorem neg_wf (a : List (X × R)) : WF (neg a) := wf_neg a
+
+/-- `combine` (hence `Lc * Lc`, the general polynomial product), `map_gens`, `map_coeffs`, `filter_gens`, `apply` -/
+theorem combine_wf (f : X → X → X) (a b : List (X × R)) : WF (combine f a b) := wf_combine f a b
+theorem mapGens_wf (f : X → Y) (a : List (X × R)) : WF (mapGens f a) := wf_fromIter _
+theorem mapCoeffs_wf (f : R → S) (a : List (X × R)) : WF (mapCoeffs f a) := wf_fromIter _
+theorem filterGens_wf (f : X → Bool) (a : List (X × R)) : WF (filterGens f a) := wf_fromIter _
+theorem apply_wf (f : X → List (X × R)) (a : List (X × R)) : WF (apply f a) := wf_fromIter _
+
+example : WF ([(1, 2), (3, -1)] : List (Int × Int)) := by unfold WF; decide
+example : fromIter ([(1, 2), (3, 0), (1, -2), (2, 5)] : List (Int × Int)) = [(2, 5)] := by decide
+
+end Invariant
+
+/-! ## 2. what the operations do to coefficients -/
+section Coeff
+variable {X R : Type} [DecidableEq X] [DecidableEq R] [CommRing R]
+
+/-- `from_iter` sums the coefficients of repeated generators -/
+theorem coeff_fromIter_eq (it : List (X × R)) (y : X) :
+    coeff (fromIter it) y = lsum (fun x r => if x = y then r else 0) it := coeff_fromIter it y
+
+theorem coeff_add {a b : List (X × R)} (ha : WF a) (hb : WF b) (y : X) :
+    coeff (addAssign a b) y = coeff a y + coeff b y := coeff_addAssign ha.1 hb.1 y
+
+theorem coeff_sub {a b : List (X × R)} (ha : WF a) (hb : WF b) (y : X) :
+    coeff (subAssign a b) y = coeff a y - coeff b y := coeff_subAssign ha.1 hb.1 y
+
+theorem coeff_neg_eq {a : List (X × R)} (ha : WF a) (y : X) : coeff (neg a) y = - coeff a y :=
+  coeff_neg ha.1 y
+
+theorem coeff_smul_eq {a : List (X × R)} (ha : WF a) (c : R) (y : X) : coeff (smul a c) y = coeff a y * c :=
+  coeff_smul ha c y
+
+/-- the coefficient of `x_map`-combined linear combinations is the convolution sum (`Lc::combine`, `Lc * Lc`) -/
+theorem coeff_combine (f : X → X → X) (a b : List (X × R)) (z : X) :
+    coeff (combine f a b) z =
+      lsum (fun x r => lsum (fun y s => if f x y = z then r * s else 0) b) a := by
+  rw [coeff_eq_lsum (wf_combine f a b).1, lsum_combine (delta_additive z)]; rfl
+
+/-- Two well-formed values with the same coefficient function hold the same terms, in possibly different order:
+results do not depend on the iteration order of the hash map, and comparing sorted term lists is complete. -/
+theorem perm_of_same_coeff {a b : List (X × R)} (ha : WF a) (hb : WF b)
+    (h : ∀ x, coeff a x = coeff b x) : a.Perm b := perm_of_coeff_eq ha hb h
+
+/-- conversely the coefficient function does not depend on the iteration order -/
+theorem coeff_order_independent {a b : List (X × R)} (ha : WF a) (h : a.Perm b) (x : X) :
+    coeff a x = coeff b x := coeff_perm ha.1 h x
+
+/-- `==`, `is_zero`, `nterms` are those of the denoted element -/
+theorem eqv_iff_same_coeff {a b : List (X × R)} (ha : WF a) (hb : WF b) :
+    eqv a b = true ↔ ∀ x, coeff a x = coeff b x := eqv_iff ha hb
+
+theorem isZero_iff_coeff_zero {a : List (X × R)} (ha : WF a) : isZero a = true ↔ ∀ x, coeff a x = 0 :=
+  isZero_iff ha
+
+/-- `nterms` counts the support: the keys enumerate, without repetition, exactly the `x` with non-zero coefficient -/
+theorem nterms_is_support_size {a : List (X × R)} (ha : WF a) :
+    nterms a = (keys a).length ∧ (keys a).Nodup ∧ ∀ x, x ∈ keys a ↔ coeff a x ≠ 0 :=
+  ⟨nterms_eq a, ha.1, mem_keys_iff ha⟩
+
+example : eqv ([(1, 2), (3, -1)] : List (Int × Int)) [(3, -1), (1, 2)] = true := by decide
+
+end Coeff
+
+/-! ## 3. polynomial multiplication, the special cases of `*=`, ring axioms, evaluation -/
+section Ring
+variable {M R : Type} [DecidableEq M] [CommMonoid M] [DecidableEq R] [CommRing R]
+
+theorem coeff_mul (a b : List (M × R)) (z : M) :
+    coeff (mul a b) z = lsum (fun x r => lsum (fun y s => if x * y = z then r * s else 0) b) a :=
+  coeff_combine _ a b z
+
+theorem mulAssign_wf {a b : List (M × R)} (ha : WF a) (hb : WF b) : WF (mulAssign a b) := wf_mulAssign ha hb
+
+/-- The three special cases of `*=` (rhs one / rhs constant, zero included / self constant) agree with the general
+product: same coefficients … -/
+theorem mulAssign_coeff {a b : List (M × R)} (ha : WF a) (hb : WF b) (z : M) :
+    coeff (mulAssign a b) z = coeff (mul a b) z := by
+  rw [coeff_eq_lsum (wf_mulAssign ha hb).1, coeff_eq_lsum (wf_mul a b).1, lsum_mulAssign (delta_additive z) ha hb]
+
+/-- … hence the same stored terms up to the iteration order. -/
+theorem mulAssign_perm_mul {a b : List (M × R)} (ha : WF a) (hb : WF b) : (mulAssign a b).Perm (mul a b) :=
+  perm_of_coeff_eq (wf_mulAssign ha hb) (wf_mul a b) (mulAssign_coeff ha hb)
+
+/-! ring axioms, for the operations as implemented (`*` = `mulAssign`), up to the iteration order -/
+
+theorem add_comm_perm {a b : List (M × R)} (ha : WF a) (hb : WF b) : (addAssign a b).Perm (addAssign b a) :=
+  perm_of_lsum_eq (wf_addAssign ha.1 b) (wf_addAssign hb.1 a) (fun y => by
+    rw [lsum_addAssign (delta_additive y), lsum_addAssign (delta_additive y), add_comm])
+
+theorem add_assoc_perm {a b c : List (M × R)} (ha : WF a) (hb : WF b) (hc : WF c) :
+    (addAssign (addAssign a b) c).Perm (addAssign a (addAssign b c)) :=
+  perm_of_lsum_eq (wf_addAssign (wf_addAssign ha.1 b).1 c) (wf_addAssign ha.1 _) (fun y => by
+    simp only [lsum_addAssign (delta_additive y), add_assoc])
+
+theorem add_zero_eq {a : List (M × R)} (ha : WF a) : (addAssign a []).Perm a :=
+  perm_of_lsum_eq (wf_addAssign ha.1 []) ha (fun y => by simp [lsum_addAssign (delta_additive y)])
+
+theorem add_neg_cancel_eq {a : List (M × R)} (ha : WF a) : addAssign a (neg a) = [] := by
+  have h : (addAssign a (neg a)).Perm [] :=
+    perm_of_lsum_eq (wf_addAssign ha.1 _) wf_nil (fun y => by
+      rw [lsum_addAssign (delta_additive y), lsum_neg (delta_additive y), lsum_delta_neg]; simp)
+  exact List.Perm.eq_nil h
+
+theorem sub_self_eq {a : List (M × R)} (ha : WF a) : subAssign a a = [] := by
+  have h : (subAssign a a).Perm [] :=
+    perm_of_lsum_eq (wf_subAssign ha.1 _) wf_nil (fun y => by
+      rw [lsum_subAssign (delta_additive y), lsum_delta_neg]; simp)
+  exact List.Perm.eq_nil h
+
+theorem sub_eq_add_neg_perm {a b : List (M × R)} (ha : WF a) (hb : WF b) :
+    (subAssign a b).Perm (addAssign a (neg b)) :=
+  perm_of_lsum_eq (wf_subAssign ha.1 b) (wf_addAssign ha.1 _) (fun y => by
+    rw [lsum_subAssign (delta_additive y), lsum_addAssign (delta_additive y), lsum_neg (delta_additive y)])
+
+theorem mul_comm_perm {a b : List (M × R)} (ha : WF a) (hb : WF b) : (mulAssign a b).Perm (mulAssign b a) :=
+  perm_of_lsum_eq (wf_mulAssign ha hb) (wf_mulAssign hb ha) (fun y => by
+    rw [lsum_mulAssign (delta_additive y) ha hb, lsum_mulAssign (delta_additive y) hb ha, lsum_mul_comm (delta_additive y)])
+
+theorem mul_assoc_perm {a b c : List (M × R)} (ha : WF a) (hb : WF b) (hc : WF c) :
+    (mulAssign (mulAssign a b) c).Perm (mulAssign a (mulAssign b c)) := by
+  have hab := wf_mulAssign ha hb
+  have hbc := wf_mulAssign hb hc
+  refine perm_of_lsum_eq (wf_mulAssign hab hc) (wf_mulAssign ha hbc) (fun y => ?_)
+  have hd := delta_additive (R := R) y
+  rw [lsum_mulAssign hd hab hc, lsum_mulAssign hd ha hbc]
+  -- replace the inner `mulAssign`s by `mul` below linear functionals
+  rw [lsum_mul hd, lsum_mulAssign (additive_inner hd (fun x y => x * y) c) ha hb, ← lsum_mul hd,
+    lsum_mul_assoc hd, lsum_mul hd, lsum_mul hd]
+  apply lsum_congr; intro p _
+  rw [lsum_mulAssign (additive_left hd (fun z => p.1 * z) p.2) hb hc]
+
+theorem fromConst_wf (c : R) : WF (fromConst c : List (M × R)) := wf_fromIter _
+
+theorem mul_one_perm {a : List (M × R)} (ha : WF a) : (mulAssign a (fromConst 1)).Perm a :=
+  perm_of_lsum_eq (wf_mulAssign ha (fromConst_wf 1)) ha (fun y => by
+    rw [lsum_mulAssign (delta_additive y) ha (fromConst_wf 1), lsum_mul_one (delta_additive y)])
+
+theorem mul_zero_eq {a : List (M × R)} (ha : WF a) : mulAssign a [] = [] := by
+  have h : (mulAssign a []).Perm [] :=
+    perm_of_lsum_eq (wf_mulAssign ha wf_nil) wf_nil (fun y => by
+      rw [lsum_mulAssign (delta_additive y) ha wf_nil, lsum_mul (delta_additive y)]
+      simp [lsum_zero_fun])
+  exact List.Perm.eq_nil h
+
+theorem mul_add_perm {a b c : List (M × R)} (ha : WF a) (hb : WF b) (hc : WF c) :
+    (mulAssign a (addAssign b c)).Perm (addAssign (mulAssign a b) (mulAssign a c)) := by
+  have hbc := wf_addAssign hb.1 c
+  refine perm_of_lsum_eq (wf_mulAssign ha hbc) (wf_addAssign (wf_mulAssign ha hb).1 _) (fun y => ?_)
+  have hd := delta_additive (R := R) y
+  rw [lsum_mulAssign hd ha hbc, lsum_addAssign hd, lsum_mulAssign hd ha hb, lsum_mulAssign hd ha hc, lsum_mul_add hd]
+
+/-- `p * r` for a scalar `r` is the product with the constant polynomial -/
+theorem smul_perm_mul_const {a : List (M × R)} (ha : WF a) (c : R) :
+    (smul a c).Perm (mulAssign a (fromConst c)) :=
+  perm_of_lsum_eq (wf_smul ha c) (wf_mulAssign ha (fromConst_wf c)) (fun y => by
+    rw [lsum_mulAssign (delta_additive y) ha (fromConst_wf c), lsum_smul_const (delta_additive y)])
+
+/-! evaluation: `me` is the value of the monomials at the point (a monoid homomorphism `M → R`) -/
+
+theorem eval_add (me : M → R) (a b : List (M × R)) :
+    evalWith me (addAssign a b) = evalWith me a + evalWith me b := by
+  simp only [evalWith_eq_lsum, lsum_addAssign (evalFun_additive me)]
+
+theorem eval_sub (me : M → R) (a b : List (M × R)) :
+    evalWith me (subAssign a b) = evalWith me a - evalWith me b := by
+  simp only [evalWith_eq_lsum, lsum_subAssign (evalFun_additive me)]
+  have : lsum (fun x r => -r * me x) b = - lsum (fun x r => r * me x) b := by
+    induction b with
+    | nil => simp
+    | cons p t ih => simp only [lsum_cons, ih]; ring
+  rw [this]; ring
+
+theorem eval_mul (me : M → R) (hme : ∀ x y, me (x * y) = me x * me y) {a b : List (M × R)}
+    (ha : WF a) (hb : WF b) : evalWith me (mulAssign a b) = evalWith me a * evalWith me b := by
+  rw [evalWith_eq_lsum, lsum_mulAssign (evalFun_additive me) ha hb, ← evalWith_eq_lsum, evalWith_mul me hme]
+
+theorem eval_one (me : M → R) (h1 : me 1 = 1) : evalWith me (fromConst (1 : R) : List (M × R)) = 1 := by
+  rw [evalWith_eq_lsum, fromConst, lsum_fromIter (evalFun_additive me)]; simp [h1]
+
+/-- `pow(n)` (repeated `*=` from `one`) keeps the invariant and evaluates to the `n`-th power -/
+theorem powP_wf {a : List (M × R)} (ha : WF a) (n : Nat) : WF (powP a n) := by
+  induction n with
+  | zero => exact fromConst_wf 1
+  | succ k ih => exact wf_mulAssign ih ha
+
+theorem eval_pow (me : M → R) (h1 : me 1 = 1) (hme : ∀ x y, me (x * y) = me x * me y)
+    {a : List (M × R)} (ha : WF a) (n : Nat) : evalWith me (powP a n) = powNat (evalWith me a) n := by
+  induction n with
+  | zero => exact eval_one me h1
+  | succ k ih => simp only [powP, powNat]; rw [eval_mul me hme (powP_wf ha k) ha, ih]
+
+theorem eval_order_independent (me : M → R) {a b : List (M × R)} (h : a.Perm b) :
+    evalWith me a = evalWith me b := by
+  rw [evalWith_eq_lsum, evalWith_eq_lsum, lsum_perm _ h]
+
+end Ring
+
+/-! the monomial evaluations used by `eval` are monoid homomorphisms (`usize` exponents) -/
+section EvalMono
+variable {R : Type} [DecidableEq R] [CommRing R]
+
+theorem evalVar_hom (x : R) (a b : Var Nat) :
+    powNat x (a * b).e = powNat x a.e * powNat x b.e := powNat_add x _ _
+
+theorem evalVar2_hom (x y : R) (a b : Var2 Nat) :
+    powNat x (a * b).e0 * powNat y (a * b).e1 = (powNat x a.e0 * powNat y a.e1) * (powNat x b.e0 * powNat y b.e1) := by
+  show powNat x (a.e0 + b.e0) * powNat y (a.e1 + b.e1) = _
+  rw [powNat_add, powNat_add]; ring
+
+theorem evalVar3_hom (x y z : R) (a b : Var3 Nat) :
+    powNat x (a * b).e0 * powNat y (a * b).e1 * powNat z (a * b).e2 =
+      (powNat x a.e0 * powNat y a.e1 * powNat z a.e2) * (powNat x b.e0 * powNat y b.e1 * powNat z b.e2) := by
+  show powNat x (a.e0 + b.e0) * powNat y (a.e1 + b.e1) * powNat z (a.e2 + b.e2) = _
+  rw [powNat_add, powNat_add, powNat_add]; ring
+
+end EvalMono
+
+/-! ## 4. leading term -/
+section LeadTerm
+variable {M R : Type} [DecidableEq M] [One M] [DecidableEq R] [CommRing R]
+
+/-- for a total order `cmp` on the monomials satisfying `P`: the lead term of a non-zero polynomial is the stored
+term with the largest monomial, and its coefficient is the (non-zero) coefficient at that monomial -/
+theorem leadTerm_is_max {P : M → Prop} {cmp : M → M → Ordering} (h : OrdLaws P cmp)
+    {a : List (M × R)} (ha : WF a) (hP : ∀ q ∈ a, P q.1) (hne : a ≠ []) :
+    coeff a (leadTerm cmp a).1 = (leadTerm cmp a).2 ∧ (leadTerm cmp a).2 ≠ 0 ∧
+      ∀ y, coeff a y ≠ 0 → cmp y (leadTerm cmp a).1 ≠ .gt := by
+  obtain ⟨hm, hx⟩ := leadTerm_spec h hP hne
+  refine ⟨coeff_of_mem ha.1 hm, ha.2 _ hm, fun y hy => hx (y, coeff a y) (mem_of_coeff_ne_zero hy)⟩
+
+/-- the lead term does not depend on the iteration order of the hash map -/
+theorem leadTerm_order_independent {P : M → Prop} {cmp : M → M → Ordering} (h : OrdLaws P cmp)
+    {a b : List (M × R)} (ha : WF a) (hP : ∀ q ∈ a, P q.1) (hab : a.Perm b) :
+    leadTerm cmp a = leadTerm cmp b := leadTerm_perm h ha hP hab
+
+/-- the zero polynomial has lead term `(1, 0)` -/
+theorem leadTerm_zero (cmp : M → M → Ordering) : leadTerm cmp ([] : List (M × R)) = (1, 0) := rfl
+
+end LeadTerm
+
+/-! ## 5. monomial orders are total orders compatible with multiplication -/
+section Orders
+variable {I : Type} [AddCommMonoid I] [LinearOrder I] [IsOrderedCancelAddMonoid I]
+
+/-- `OrdLaws P cmp`: `cmp x y = eq ↔ x = y`, `cmp y x = (cmp x y).swap` (totality + antisymmetry),
+`≤` transitive — on all monomials (`Var*`) resp. on the multi-degrees satisfying the invariant. -/
+theorem var_lex_total : OrdLaws (fun _ => True) (Var.cmpLex (I := I)) := var_ordLaws_lex
+theorem var_grlex_total : OrdLaws (fun _ => True) (Var.cmpGrlex (I := I)) := var_ordLaws_grlex
+theorem var2_lex_total : OrdLaws (fun _ => True) (Var2.cmpLex (I := I)) := var2_ordLaws_lex
+theorem var2_grlex_total : OrdLaws (fun _ => True) (Var2.cmpGrlex (I := I)) := var2_ordLaws_grlex
+theorem var3_lex_total : OrdLaws (fun _ => True) (Var3.cmpLex (I := I)) := var3_ordLaws_lex
+theorem var3_grlex_total : OrdLaws (fun _ => True) (Var3.cmpGrlex (I := I)) := var3_ordLaws_grlex
+theorem mdeg_lex_total : OrdLaws (MDWF (I := I)) mdCmpLex := md_ordLaws_lex
+theorem mdeg_grlex_total : OrdLaws (MDWF (I := I)) mdCmpGrlex := md_ordLaws_grlex
+
+theorem var_lex_mul (a b c : Var I) : Var.cmpLex (a * c) (b * c) = Var.cmpLex a b := var_cmp_mul a b c
+theorem var_grlex_mul (a b c : Var I) : Var.cmpGrlex (a * c) (b * c) = Var.cmpGrlex a b := var_cmp_mul a b c
+theorem var2_lex_mul (a b c : Var2 I) : Var2.cmpLex (a * c) (b * c) = Var2.cmpLex a b := var2_cmpLex_mul a b c
+theorem var2_grlex_mul (a b c : Var2 I) : Var2.cmpGrlex (a * c) (b * c) = Var2.cmpGrlex a b :=
+  var2_cmpGrlex_mul a b c
+theorem var3_lex_mul (a b c : Var3 I) : Var3.cmpLex (a * c) (b * c) = Var3.cmpLex a b := var3_cmpLex_mul a b c
+theorem var3_grlex_mul (a b c : Var3 I) : Var3.cmpGrlex (a * c) (b * c) = Var3.cmpGrlex a b :=
+  var3_cmpGrlex_mul a b c
+theorem mdeg_lex_mul {a b c : List (Nat × I)} (ha : MDWF a) (hb : MDWF b) (hc : MDWF c) :
+    mdCmpLex (mdAdd a c) (mdAdd b c) = mdCmpLex a b := mdCmpLex_mdAdd ha.1 hb.1 hc.1
+theorem mdeg_grlex_mul {a b c : List (Nat × I)} (ha : MDWF a) (hb : MDWF b) (hc : MDWF c) :
+    mdCmpGrlex (mdAdd a c) (mdAdd b c) = mdCmpGrlex a b := mdCmpGrlex_mdAdd ha.1 hb.1 hc.1
+
+/-- `cmp_lex` on multi-degrees is the lexicographic comparison of the exponent functions, variable 0 first -/
+theorem mdeg_lex_characterisation (a b : List (Nat × I)) :
+    (mdCmpLex a b = .lt ↔ ∃ i, (∀ j, j < i → mdGet a j = mdGet b j) ∧ mdGet a i < mdGet b i) ∧
+    (mdCmpLex a b = .eq ↔ ∀ i, mdGet a i = mdGet b i) := by
+  rw [mdCmpLex_eq, cmpK_lt, cmpK_eq]
+  refine ⟨Iff.rfl, ?_⟩
+  constructor
+  · intro h i; exact congrFun (toLex.injective h) i
+  · intro h; congr 1; funext i; exact h i
+
+example : MDWF ([(0, 2), (3, -1)] : List (Nat × Int)) := by
+  refine ⟨by simp [MDSorted, mdKeys], by simp⟩
+example : mdCmpGrlex ([(0, 1), (1, -2), (2, 3)] : List (Nat × Int)) [(0, 2), (1, 2), (2, -2)] = .lt := by decide
+
+end Orders
+
+/-! ## 6. `MultiDeg`: no zero exponent is ever stored; arithmetic is that of exponent vectors -/
+section MultiDeg
+variable {I : Type} [AddCommMonoid I] [LinearOrder I] [IsOrderedCancelAddMonoid I]
+
+/-- `MultiDeg::from_iter`, `From<[I;N]>`, `From<(usize,I)>`, `MultiVar::from_iter`: sorted keys, no zero exponent,
+whatever the input (zero exponents, repeated indices) -/
+theorem mdFromIter_wf (it : List (Nat × I)) : MDWF (mdFromIter it) := mdWF_fromIter it
+theorem mdFromArray_wf (ds : List I) : MDWF (mdFromArray ds) := mdWF_fromIter _
+
+/-- `+=` (the product of monomials) re-establishes the invariant and adds exponents -/
+theorem mdAdd_wf {a : List (Nat × I)} (ha : MDWF a) (b : List (Nat × I)) : MDWF (mdAdd a b) := mdWF_mdAdd ha.1 b
+theorem mdAdd_get {a b : List (Nat × I)} (ha : MDWF a) (hb : MDWF b) (i : Nat) :
+    mdGet (mdAdd a b) i = mdGet a i + mdGet b i := mdGet_mdAdd ha.1 hb.1 i
+theorem mdAdd_total (a b : List (Nat × I)) : mdTotal (mdAdd a b) = mdTotal a + mdTotal b := mdTotal_mdAdd a b
+
+/-- under the invariant a multi-degree is determined by its exponent function, so the derived `==`/`Hash` used
+for the hash-map keys identify exactly the equal monomials -/
+theorem mdeg_eq_iff {a b : List (Nat × I)} (ha : MDWF a) (hb : MDWF b) :
+    a = b ↔ ∀ i, mdGet a i = mdGet b i := ⟨fun e i => by rw [e], md_ext ha hb⟩
+
+/-- `isize`: negation and subtraction -/
+theorem mdNeg_wf {a : List (Nat × Int)} (ha : MDWF a) : MDWF (mdNeg a) := mdWF_mdNeg ha
+theorem mdNeg_get (a : List (Nat × Int)) (i : Nat) : mdGet (mdNeg a) i = - mdGet a i := mdGet_mdNeg a i
+theorem mdSubInt_wf {a : List (Nat × Int)} (ha : MDWF a) (b : List (Nat × Int)) : MDWF (mdSubInt a b) :=
+  mdWF_mdSubInt ha.1 b
+theorem mdSubInt_get {a b : List (Nat × Int)} (ha : MDWF a) (hb : MDWF b) (i : Nat) :
+    mdGet (mdSubInt a b) i = mdGet a i - mdGet b i := mdGet_mdSubInt ha.1 hb.1 i
+
+/-- The operations on polynomials over raw `MultiVar`s whose monomials satisfy the invariant are the images of
+the operations over the commutative monoid `WMVar` of well-formed monomials (to which section 3 applies). -/
+theorem mvar_mulAssign_transport {R : Type} [DecidableEq R] [CommRing R] (a b : List (WMVar I × R)) :
+    mulAssign (mapK WMVar.val a) (mapK WMVar.val b) = mapK WMVar.val (mulAssign a b) :=
+  mulAssign_mapK WMVar.val_injective WMVar.val_one WMVar.val_mul a b
+
+theorem mvar_addAssign_transport {R : Type} [DecidableEq R] [CommRing R] (a b : List (WMVar I × R)) :
+    addAssign (mapK WMVar.val a) (mapK WMVar.val b) = mapK WMVar.val (addAssign a b) :=
+  addAssign_mapK WMVar.val_injective a b
+
+theorem mvar_subAssign_transport {R : Type} [DecidableEq R] [CommRing R] (a b : List (WMVar I × R)) :
+    subAssign (mapK WMVar.val a) (mapK WMVar.val b) = mapK WMVar.val (subAssign a b) :=
+  subAssign_mapK WMVar.val_injective a b
+
+theorem mvar_fromIter_transport {R : Type} [DecidableEq R] [CommRing R] (it : List (WMVar I × R)) :
+    fromIter (mapK WMVar.val it) = mapK WMVar.val (fromIter it) :=
+  fromIter_mapK WMVar.val_injective it
+
+end MultiDeg
+
+/-! ## 7. `HPoly` -/
+section HP
+variable {R : Type} [DecidableEq R] [CommRing R]
+
+/-- `*` on homogeneous polynomials: degrees add and coefficients multiply (as values, i.e. up to the `==` that
+identifies all zero polynomials) -/
+theorem hpoly_mul_spec (a b : HPoly R) :
+    (a.mul b).eqv ⟨a.deg + b.deg, a.coeff * b.coeff⟩ = true := by
+  unfold HPoly.mul HPoly.isOne
+  by_cases h : (b.deg == 0 && decide (b.coeff = 1)) = true
+  · simp only [h, if_true]
+    simp only [Bool.and_eq_true, beq_iff_eq, decide_eq_true_eq] at h
+    simp [HPoly.eqv, h.1, h.2]
+  · simp [h, HPoly.eqv]
+
+theorem hpoly_mul_comm (a b : HPoly R) : (a.mul b).eqv (b.mul a) = true := by
+  have h1 := hpoly_mul_spec a b
+  have h2 := hpoly_mul_spec b a
+  unfold HPoly.eqv at *
+  simp only [Nat.add_comm b.deg, mul_comm b.coeff] at h2
+  split at h1 <;> split at h2 <;> split <;> simp_all
+
+end HP
+
 end Yuiv.C16.Props
